@@ -722,6 +722,7 @@ def run(chk):   # noqa
     _emitform_rule(chk, prog, types)
     _srcmap_rule(chk, prog)
     _mapform_rule(chk, prog)
+    _dropshort_rule(chk, prog)
     _closureflag_rule(chk, prog)
     _wrflag_rule(chk, prog)
     _sloteq_rule(chk, prog)
@@ -969,3 +970,35 @@ def _pusharity_rule(chk, prog):
         chk.floor(rule, 0, 0)
     else:
         chk.floor(rule, 4, n)
+
+
+def _dropshort_rule(chk, prog):
+    """def and var evaluate to their right-hand side.  For (def [a b] [x y]) the compiler has a short cut that pairs
+    pattern and value positions and never builds the right-hand tuple - so afterwards there is no value to hand back.
+    That is only acceptable when nobody wants it: the short cut is taken under JANET_FOPTS_DROP and not otherwise
+    (tail position, last form of a do, an argument)."""
+    rule = "C02-DROPSHORT"
+    chk.rule(rule, "dohead_destructure takes its pairwise short cut (which never materialises the right-hand value) only when the form's value is dropped")
+    from jv.flow import _atoms
+    fn = prog.need_func("dohead_destructure", "specials.c")
+    chk.analysed(fn)
+    drops = set(x.name for x in fn.nodes if x.k == "vardecl" and x.kids and any("JANET_FOPTS_DROP" in y.macro_names() or (y.k == "ref" and y.name == "JANET_FOPTS_DROP") for y in x.kids[0].walk()))
+    shorts = [x for x in fn.nodes if x.k == "if" and any(c.k == "call" and c.callee == "dohead_destructure" for c in x.kids[1].walk())
+              and not any(q.k == "if" and q is not x and any(z is x for z in q.kids[1].walk()) and
+                          any(c.k == "call" and c.callee == "dohead_destructure" for c in q.kids[1].walk()) for q in fn.nodes)]
+    if not shorts:
+        raise AnalysisBroken("dohead_destructure: the pairwise short cut (recursive call under an if) was not found")
+    chk.instance(rule)
+    x = shorts[0]
+
+    def mentions_drop(a):
+        return any((y.k == "ref" and (y.name in drops or y.name == "JANET_FOPTS_DROP")) or "JANET_FOPTS_DROP" in y.macro_names() for y in a.walk())
+    loose = [alt for alt in _atoms(x.kids[0], True) if not any(mentions_drop(a) and t for (a, t) in alt)]
+    if loose:
+        chk.violation(rule, "specials.c", fn.name, "shortcut", x.loc,
+                      "the pairwise short cut of dohead_destructure is taken under `%s`, which does not require JANET_FOPTS_DROP: (def [a b] [1 2]) in "
+                      "a position where its value is used (tail position, an argument, the REPL) evaluates to the last right-hand element "
+                      "instead of the tuple" % x.kids[0].text()[:70])
+    else:
+        chk.ok(rule, "dohead_destructure: short cut only under `%s`" % x.kids[0].text()[:50])
+    chk.floor(rule, 1)
